@@ -77,7 +77,9 @@ type Sched struct {
 	out      *Outcome
 	horizon  int
 	steps    int
-	closed   map[uintptr]bool
+	// closed channels, keyed by address; the value pins the channel so that the address
+	// cannot be reused by a new channel within the same execution
+	closed   map[uintptr]reflect.Value
 	timers   []*vtimer
 	timerSeq int
 	now      int64 // virtual nanoseconds since base
@@ -89,6 +91,9 @@ type Sched struct {
 
 // Base is the virtual epoch.
 var Base = time.Date(2024, 1, 1, 0, 0, 0, 0, time.UTC)
+
+// HangTimeout is the real-time watchdog for one execution (never part of an oracle).
+var HangTimeout = 3 * time.Minute
 
 var active *Sched
 
@@ -126,7 +131,7 @@ func Run(opts Options, body func()) *Outcome {
 		panic("vsched: nested Run")
 	}
 	s := &Sched{prefix: opts.Prefix, endCh: make(chan struct{}, 1), out: &Outcome{}, horizon: opts.Horizon,
-		closed: map[uintptr]bool{}, trace: opts.Trace, quietAtomics: opts.QuietAtomics, delay: opts.Delay}
+		closed: map[uintptr]reflect.Value{}, trace: opts.Trace, quietAtomics: opts.QuietAtomics, delay: opts.Delay}
 	if s.horizon <= 0 {
 		s.horizon = 20000
 	}
@@ -135,8 +140,15 @@ func Run(opts Options, body func()) *Outcome {
 	s.cur = t0
 	t0.started = true
 	t0.gate <- struct{}{}
-	<-s.endCh
-	s.teardown()
+	select {
+	case <-s.endCh:
+		s.teardown()
+	case <-time.After(HangTimeout):
+		// a managed thread blocked for real (outside the scheduler's control): the
+		// execution cannot be continued or unwound; report a harness error
+		s.aborting = true
+		s.out.Unsupported = "execution hung: a managed thread blocked outside the scheduler (real blocking operation in non-rewritten code, or an unmodelled channel operation)"
+	}
 	active = nil
 	s.out.Points = s.points
 	s.out.Choices = s.choices
@@ -575,8 +587,10 @@ func (s *Sched) recvReady(v reflect.Value) bool {
 	if v.Len() > 0 {
 		return true
 	}
-	if s != nil && s.closed[v.Pointer()] {
-		return true
+	if s != nil {
+		if _, ok := s.closed[v.Pointer()]; ok {
+			return true
+		}
 	}
 	// empty: ready iff closed. A non-blocking receive cannot consume anything because no
 	// other managed thread runs now; a value arriving here means an unmanaged sender.
@@ -586,7 +600,7 @@ func (s *Sched) recvReady(v reflect.Value) bool {
 			Unsupported("vsched: a value was received while probing an empty channel (unbuffered rendezvous or unmanaged sender) - unsupported")
 		}
 		if s != nil {
-			s.closed[v.Pointer()] = true
+			s.closed[v.Pointer()] = v
 		}
 		return true
 	}
@@ -597,8 +611,10 @@ func (s *Sched) sendReady(v reflect.Value) bool {
 	if v.IsNil() {
 		return false
 	}
-	if s != nil && s.closed[v.Pointer()] {
-		return true // will panic, as the real program would
+	if s != nil {
+		if _, ok := s.closed[v.Pointer()]; ok {
+			return true // will panic, as the real program would
+		}
 	}
 	if v.Cap() == 0 {
 		Unsupported("vsched: send on an unbuffered channel is not modelled")
@@ -624,10 +640,11 @@ func (o chanOp) Ready(s *Sched) int {
 	return 0
 }
 func (o chanOp) String() string {
+	// no addresses: messages must be identical across replays
 	if o.send {
-		return fmt.Sprintf("send(%x)", o.v.Pointer()&0xffff)
+		return fmt.Sprintf("send(cap %d)", o.v.Cap())
 	}
-	return fmt.Sprintf("recv(%x)", o.v.Pointer()&0xffff)
+	return fmt.Sprintf("recv(cap %d)", o.v.Cap())
 }
 
 // BeforeSend parks until a send on c can proceed; the real `c <- v` follows immediately.
@@ -687,7 +704,8 @@ func Close[T any](c chan<- T) {
 	s := active
 	if s != nil && !s.aborting {
 		s.point(readyOp("close"))
-		s.closed[reflect.ValueOf(c).Pointer()] = true
+		cv := reflect.ValueOf(c)
+		s.closed[cv.Pointer()] = cv
 		s.epoch++
 	}
 	if s != nil && s.aborting {
